@@ -9,7 +9,7 @@
 // are compared with the reference state machine RefNotary (model.go).
 //
 // Part B (SCHED): the concurrent duplicates Confirm||Confirm, Confirm||Reject, Reject||Reject,
-// Propose||Propose: all interleavings of two client calls within a pre-emption bound.
+// Propose||Propose (contract, paid contract, spice): all interleavings of two client calls within a pre-emption bound.
 //
 // usage: vcheck C16 [-procs n] [-depth d] [-part space|sched|all] [-scenario prefix]
 package main
@@ -141,7 +141,7 @@ func c16Main(args []string) int {
 	}
 	rep.Set("exhaustive", exhaustive)
 	rep.Set("exhaustive_note", "true = every call sequence up to space_depth_bound (canonical-state BFS; with space_fixpoint_reached every reachable canonical state was expanded, i.e. sequences of any length) and every schedule within sched_bound was executed; no cap or deadline was hit")
-	rep.Set("alphabet", "Propose{c1 contract, s1 spice, c1x forged issuer} Confirm{receiver, attacker key, unsigned} Reject{receiver, issuer, attacker claiming receiver} Data{A,B} Waiting{A,B}x{current, foreign, superseded replay, wrong key} TransactionsInDAG{A current|stale} Saved{s1,c1}x{A, attacker claiming A} Balance{A, attacker, data!=address} Clock(+2min)")
+	rep.Set("alphabet", "Propose{c1 contract, m1 paid contract (data+spice), s1 spice, c1x forged issuer} Confirm c1{receiver, attacker key, unsigned} Confirm m1{receiver, attacker key} Reject c1{receiver, issuer, attacker claiming receiver} Reject m1{receiver} Data{A,B} Waiting{A,B}x{current, foreign, superseded replay, wrong key} TransactionsInDAG{A current|stale} Saved{s1,c1}x{A, attacker claiming A} Saved{m1 by A} Balance{A, attacker, data!=address} Clock(+2min)")
 	rep.Assume("each API call is atomic in Part A: the handler and the goroutines it spawns run to quiescence under the default schedule before the next call; interleavings are explored in Part B only for the duplicate write calls")
 	rep.Assume("challenge expiry follows the logical clock (dataprovider is instrumented); the flashback / awaiting-cache life windows (bigcache, wall clock, 20 s / 5 min) do not elapse during an execution")
 	rep.Assume("error classes of refusals, the 'processing' answer of an authorised Waiting with an empty list, challenge re-use until expiry/supersession and the throttle set are mirrored from the code in the reference; the property-level oracles (sealed only by the receiver's act, at most once, invalid requests change nothing, data only on proof) do not depend on that mirror")
